@@ -92,7 +92,7 @@ func c12ParseMultipart(body, b string) (parts []string, closed bool, ok bool) {
 // valid JSON delivering the initial payload and every incremental payload
 // exactly once, in order, closing boundary once and last.
 func Harness_C12_multipart() {
-	n := zzsym.Choice("incremental", 4)
+	n := zzsym.Choice("incremental", zzsym.Param("maxinc", 3)+1)
 	w := &c12Writer{hdr: http.Header{}}
 	a := &multipartResponseAggregator{boundary: "-", done: make(chan bool, 1)}
 	tick := func(where string) {
@@ -212,7 +212,7 @@ func c12ParseSSE(body string) (datas []string, pings int, ok bool) {
 // never spliced into an event, one complete; the writer is never entered
 // concurrently.
 func Harness_C12_sse() {
-	ex := &c12Exec{n: zzsym.Choice("payloads", 3), reject: zzsym.Choice("reject", 2) == 1}
+	ex := &c12Exec{n: zzsym.Choice("payloads", zzsym.Param("maxpayloads", 2)+1), reject: zzsym.Choice("reject", 2) == 1}
 	keepAlive := zzsym.Choice("keepalive", 2) == 1
 	w := &c12Writer{hdr: http.Header{}, preempt: keepAlive}
 	ctx, cancel := context.WithCancel(context.Background())
